@@ -247,6 +247,9 @@ def pw(base, exponent: Fraction):
             return ratval(b ** int(exponent))
         if b == 1:
             return ratval(Fraction(1))
+        if b > 0:
+            # concrete base (pristine / concrete discount rate): the numeric power, as a close rational
+            return ratval(Fraction(float(b) ** float(exponent)).limit_denominator(10 ** 15))
     # nested power: pw(pw(b,p),q) -> pw(b,p*q)
     if z3.is_const(base) and base.decl().name() in _ATOM_INFO:
         b0, p0 = _ATOM_INFO[base.decl().name()]
